@@ -119,7 +119,17 @@ func approxEq(a, b float64) bool {
 
 // c04Compare checks every measure of one bucket against the events of that bucket.
 func c04Compare(fs *Fails, ctx, col, numClass string, evs []*MEvent, got map[string]interface{}, only string) {
-	want := func(key string) bool { return only == "" || only == key }
+	want := func(key string) bool { // only: "" (every measure) or the |-separated measures the query holds
+		if only == "" {
+			return true
+		}
+		for _, o := range strings.Split(only, "|") {
+			if o == key {
+				return true
+			}
+		}
+		return false
+	}
 	var nums []float64
 	var toks []string
 	present := 0
@@ -415,7 +425,7 @@ func c04Run(w *kernel.Worker, j *c04Job, rep *kernel.Report) (*Fail, error) {
 	// from the pre-computed segment statistics where they exist
 	for _, col := range []string{"s", "ns", "x"} {
 		var ms []string
-		for _, m := range []string{"count", "sum", "min", "max", "avg"} {
+		for _, m := range []string{"count(%s)", "sum(%s)", "min(%s)", "max(%s)", "avg(%s)"} {
 			ms = append(ms, fmtMeasure(m, col))
 		}
 		qs = append(qs, mkq("* | stats "+strings.Join(ms, ", ")))
@@ -578,7 +588,11 @@ func c04Run(w *kernel.Worker, j *c04Job, rep *kernel.Report) (*Fail, error) {
 					c04Compare(fs, ctx, d.col, "single", evs, b.M, d.single)
 					continue
 				}
-				c04Compare(fs, ctx, d.col, numClass, evs, b.M, "")
+				onlyKeys := ""
+				if d.numericOnly {
+					onlyKeys = fmt.Sprintf("count(%[1]s)|sum(%[1]s)|min(%[1]s)|max(%[1]s)|avg(%[1]s)", d.col)
+				}
+				c04Compare(fs, ctx, d.col, numClass, evs, b.M, onlyKeys)
 				if len(groups) >= 2 || nseg >= 1 {
 					rep.Nontrivial(j.Dataset + "|" + fmt.Sprint(j.Layout.Bounds) + "|" + qs[qi].Text)
 				}
